@@ -776,9 +776,9 @@ FILTER_OPS = {
     SF + "string::strip::StripFilter": ({"trim"}, {"trim_start", "trim_end", "trim_matches", "trim_start_matches", "trim_end_matches"}),
     SF + "string::strip::LstripFilter": ({"trim_start"}, {"trim", "trim_end", "trim_matches", "trim_end_matches"}),
     SF + "string::strip::RstripFilter": ({"trim_end"}, {"trim", "trim_start", "trim_matches", "trim_start_matches"}),
-    SF + "math::CeilFilter": ({"ceil"}, {"floor", "round", "trunc"}),
-    SF + "math::FloorFilter": ({"floor"}, {"ceil", "round", "trunc"}),
-    SF + "math::RoundFilter": ({"round"}, {"ceil", "floor", "trunc"}),
+    SF + "math::CeilFilter": ({"ceil"}, {"floor", "round", "trunc", "format", "parse", "to_string"}),
+    SF + "math::FloorFilter": ({"floor"}, {"ceil", "round", "trunc", "format", "parse", "to_string"}),
+    SF + "math::RoundFilter": ({"round"}, {"ceil", "floor", "trunc", "format", "parse", "to_string"}),
     SF + "math::AtLeastFilter": ({"max"}, {"min"}),
     SF + "math::AtMostFilter": ({"min"}, {"max"}),
     SF + "array::ReverseFilter": ({"reverse", "rev"}, {"sort_by", "sort"}),
@@ -799,7 +799,7 @@ FILTER_OPS = {
 OPS_VOC = set("to_uppercase to_lowercase to_ascii_uppercase to_ascii_lowercase trim trim_start trim_end trim_matches trim_start_matches "
               "trim_end_matches rev reverse ceil floor round trunc max min first last next next_back nth nth_back chars get chain extend append "
               "dedup retain filter filter_map join split rsplit split_whitespace replace replacen splitn rsplitn sort_by sort "
-              "graphemes grapheme_indices bytes unicode_words char_indices".split())
+              "graphemes grapheme_indices bytes unicode_words char_indices format parse to_string".split())
 
 
 def run_filter_ops(P, rep, only=None, rule="R-TABLE.filterops"):
